@@ -1941,13 +1941,19 @@ package xpath
 //@   uses one-document
 //@   loop * invariant[cursor@C13] cur(t) == old(cur(t)) && pos(cur(t)) == old(pos(cur(t)))
 //@ func (*childQuery).Select
-//@   props C15 C13
-//@   theory stream for C13
+//@   props C15 C13 C03 C01
+//@   theory stream for C13 C03 C01
+//@   ensures[position-per-parent@C03] result != nil ==> c.posit == ite(k(c.Input) == old(k(c.Input)), old(c.posit) + 1, 1)
+//@   ensures[drains-input@C01] result == nil ==> k(c.Input) == slen(ref(c.Input), epoch(c.Input))
+//@   loop 0 invariant[position@C03] k(c.Input) >= old(k(c.Input)) && (c.iterator != nil ==> k(c.Input) == old(k(c.Input)) && c.posit == old(c.posit))
 //@   uses one-document
 //@   loop * invariant[cursor@C13] cur(t) == old(cur(t)) && pos(cur(t)) == old(pos(cur(t)))
 //@ func (*cachedChildQuery).Select
-//@   props C15 C13
-//@   theory stream for C13
+//@   props C15 C13 C03 C01
+//@   theory stream for C13 C03 C01
+//@   ensures[position-per-parent@C03] result != nil ==> c.posit == ite(k(c.Input) == old(k(c.Input)), old(c.posit) + 1, 1)
+//@   ensures[drains-input@C01] result == nil ==> k(c.Input) == slen(ref(c.Input), epoch(c.Input))
+//@   loop 0 invariant[position@C03] k(c.Input) >= old(k(c.Input)) && (c.iterator != nil ==> k(c.Input) == old(k(c.Input)) && c.posit == old(c.posit))
 //@   uses one-document
 //@   loop * invariant[cursor@C13] cur(t) == old(cur(t)) && pos(cur(t)) == old(pos(cur(t)))
 //@ func (*followingQuery).Select
